@@ -9,6 +9,9 @@ require (
 	github.com/aperturerobotics/util v0.0.0
 )
 
-require github.com/pkg/errors v0.9.1 // indirect
+require (
+	github.com/aperturerobotics/protobuf-go-lite v0.8.0 // indirect
+	github.com/pkg/errors v0.9.1 // indirect
+)
 
 replace github.com/aperturerobotics/util => /repo
